@@ -23,6 +23,13 @@ steps = [
     Step(
         "ALTER TABLE object RENAME COLUMN latent_variables_for_id TO latent_samples_for_id;",
     ),
+    Step(
+        "ALTER TABLE named_instance ADD COLUMN instance_id INTEGER;",
+    ),
+    Step(
+        "CREATE TABLE dict (id INTEGER NOT NULL, PRIMARY KEY (id), FOREIGN KEY (id) REFERENCES object (id));",
+        "CREATE TABLE compound (id INTEGER NOT NULL, compound_type VARCHAR, PRIMARY KEY (id), FOREIGN KEY (id) REFERENCES object (id));",
+    ),
 ]
 
 migrator = Migrator(*steps)
